@@ -158,6 +158,24 @@ pub fn c14(a: &Args) -> CaseSet {
         add_chain(&mut cs, ops, "very-long-chains", 4 * hi);
         let last = cs.cases.len() - 1; cs.cases[last].model = false;   // oracle only: the reference on 2000+ operands; the model is not evaluated in Coq at this size
     }
+    // one variable in hundreds of operand positions (more than any small counter holds), through eval and the consuming
+    // evaluation; oracle only above 200 operands
+    for (wi, &n) in (if a.thorough { vec![120usize, 255, 256, 257, 300, 513, 1030] } else { vec![256usize, 257, 300] }).iter().enumerate() {
+        let tb = std_tables()[0].clone();
+        let sym: Vec<usize> = (0..tb.len()).filter(|k| tb[*k].bin.is_some() && !is_alpha_name(&tb[*k].repr)).collect();
+        for shape in 0..3usize {
+            let names: Vec<String> = (0..n).map(|j| match shape { 0 => "x".to_string(), 1 => if j % 2 == 0 { "x".into() } else { "y".into() }, _ => if j == 0 || j + 1 == n { "z".into() } else { "y".into() } }).collect();
+            let ops: Vec<usize> = (0..n - 1).map(|j| sym[(j * (shape + 1) + wi) % sym.len().min(3)]).collect();
+            let rest: Vec<(usize, Atom)> = (1..n).map(|j| (ops[j - 1], Atom::Var(names[j].clone()))).collect();
+            let ch = Chain { first: Box::new(Atom::Var(names[0].clone())), rest };
+            let text = render(&ch, &tb, &mut r, &RenderCfg::plain());
+            let vars = sorted_vars(&ch); let want = ref_chain(&ch, &tb, &vars); let nv = vars.len();
+            let qs = vec![Query::Vars, Query::Eval(nv), Query::EvalVec(nv)];
+            let (tb2, want2, vars2, qs2) = (tb.clone(), want.clone(), vars.clone(), qs.clone());
+            cs.add(&tb, Prog::Flat(text.clone()), qs, format!("{} operands over {:?}: {}...", n, vars, text.chars().take(24).collect::<String>()), "one-variable-in-hundreds-of-operands", n, move |obs| expect_value(&tb2, &want2, &vars2, obs, &qs2));
+            if n > 200 { let last = cs.cases.len() - 1; cs.cases[last].model = false; }
+        }
+    }
     // random orders, all four routes, at lengths where one level has > 20 and > 128 operators
     for rep in 0..a.n.max(1) {
         for &n in &[24usize, 40, 70, 131, 140, 200] {
@@ -869,6 +887,33 @@ pub fn c12(a: &Args) -> CaseSet {
             expect_value(&tb2, &wt2, &wv2, obs, &qs2)
         });
     }
+    // application by name of EVERY binary operator of a table (also those listed behind unary-only operators and constants),
+    // the result converted flat -> deep again (operator indices travel with the flat form), printed, parsed again, serialised
+    for (ti, tb) in std_tables().iter().enumerate() {
+        for k in 0..tb.len() {
+            if tb[k].bin.is_none() { continue }
+            if !a.thorough && (k + ti + a.seed as usize) % 2 == 1 && k < 3 { continue }
+            let name = tb[k].repr.clone();
+            let (ta, tbt) = [("x", "y"), ("x", "y"), ("u", "v")][ti % 3];
+            let want = tbin(k, Term::Var(0), Term::Var(1));
+            let vars = vec![ta.to_string(), tbt.to_string()];
+            let applied = Prog::Bin(name.clone(), Box::new(if k % 2 == 0 { Prog::Deep(ta.into()) } else { Prog::Flat(ta.into()) }), Box::new(if k % 3 == 0 { Prog::Flat(tbt.into()) } else { Prog::Deep(tbt.into()) }));
+            let again = Prog::ToDeep(Box::new(Prog::ToFlat(Box::new(applied.clone()))));
+            // a second application on top (the flat result is converted to deep inside operate_binary)
+            let twice = Prog::Bin(name.clone(), Box::new(Prog::ToFlat(Box::new(applied.clone()))), Box::new(Prog::Flat("w".into())));
+            let want_twice = tbin(k, tbin(k, Term::Var(if ta < "w" { 0 } else { 1 }), Term::Var(if ta < "w" { 1 } else { 2 })), Term::Var(if ta < "w" { 2 } else { 0 }));
+            let mut vars_twice = vec![ta.to_string(), tbt.to_string(), "w".to_string()]; vars_twice.sort();
+            for (prog, w, vs, what) in [(Prog::ReFlat(Box::new(again.clone())), want.clone(), vars.clone(), "converted again, printed, parsed flat"), (Prog::ReDeep(Box::new(again.clone())), want.clone(), vars.clone(), "converted again, printed, parsed deep"),
+                                        (Prog::SerdeFlat(Box::new(again.clone())), want.clone(), vars.clone(), "converted again, serialised"), (again.clone(), want.clone(), vars.clone(), "converted again"),
+                                        (Prog::ReFlat(Box::new(twice.clone())), want_twice.clone(), vars_twice.clone(), "applied twice, printed, parsed flat"), (Prog::ReDeep(Box::new(Prog::ToDeep(Box::new(twice.clone())))), want_twice.clone(), vars_twice.clone(), "applied twice, printed, parsed deep")] {
+                let qs = vec![Query::Vars, Query::Eval(vs.len()), Query::Unparse];
+                let (tb2, qs2, name2) = (tb.clone(), qs.clone(), name.clone());
+                cs.add(tb, prog, qs, format!("{ta} {name} {tbt}: {what}"), "operator-by-name-converted-again", 3, move |obs| {
+                    if let Obs::Str(t) = &obs[2] { if !t.contains(name2.as_str()) { return (Some(false), format!("the printed text {t:?} does not contain the applied operator {name2:?}")) } }
+                    expect_value(&tb2, &w, &vs, obs, &qs2) });
+            }
+        }
+    }
     cs
 }
 
@@ -1467,7 +1512,8 @@ pub fn c10s(a: &Args) -> CaseSet {
     let mut cs = CaseSet::default();
     let mut r = Rng::new(a.seed ^ 0x1010);
     let tb = float_table();
-    let seeds = ["0", "1", "x", "y", "x+1", "0*x", "1*y", "2", "x-x", "sin(0)", "cos(0)", "x*y", "(x)", "-(0)", "+1", "0.0", "1.0", "z^1", "z^0", "-1", "(0)", "((1))", "sin(1)"];
+    let seeds = ["0", "1", "x", "y", "x+1", "0*x", "1*y", "2", "x-x", "sin(0)", "cos(0)", "x*y", "(x)", "-(0)", "+1", "0.0", "1.0", "z^1", "z^0", "-1", "(0)", "((1))", "sin(1)",
+        "x^2", "0.5", "3", "(x+y)^2", "y^2", "-x", "1.5", "x^3", "x*x", "2*x", "x/2", "0.25", "-2", "-y*y"];
     for _ in 0..a.n {
         let mut pool: Vec<(Prog, Term, Vec<String>)> = vec![];   // program, reference term over its own sorted variables
         for _ in 0..4 {
@@ -1511,7 +1557,9 @@ pub fn c10s(a: &Args) -> CaseSet {
                 (Obs::E, _) => (None, "rejected (0^0)".into()),
                 (Obs::S(v), Obs::T(got)) => {
                     if *v != vars2 { return (Some(false), format!("variables {v:?}, expected the sorted union {vars2:?}")) }
-                    for pt in points(vars2.len()) {
+                    // positive points and points with negative coordinates (a power of a power is not the power of the product there)
+                    let mut pts = points(vars2.len()); for (t, p) in points(vars2.len()).into_iter().enumerate() { pts.push(p.iter().enumerate().map(|(k, c)| if (k + t) % 2 == 0 { -c * 2.3 } else { *c }).collect()); pts.push(p.iter().map(|c| -c).collect()); }
+                    for pt in pts {
                         let w = interp(&want, &tb2, &pt);
                         if !all_finite(&want, &tb2, &pt) { continue }   // the property speaks about assignments where the unsimplified form is finite
                         let g = interp(got, &tb2, &pt);
@@ -1522,6 +1570,40 @@ pub fn c10s(a: &Args) -> CaseSet {
                 _ => (Some(false), format!("{} / {}", pretty_obs(&obs[0]), pretty_obs(&obs[1]))),
             }
         });
+    }
+    // powers of powers and products of powers with literal exponents, through the pow method (Arith 4), on deep and flat
+    // operands: (x^2)^0.5 is |x|, not x
+    for (bi, base) in ["x^2", "(x+y)^2", "x^4", "(x*y)^2", "x^0.5", "(-x)^2", "x^3"].iter().enumerate() {
+        for (ei, e) in ["0.5", "2", "1.5", "0.25", "3", "-1"].iter().enumerate() {
+            set_table(&tb);
+            use exmex::Express;
+            let Ok(fb) = FE::parse_wo_compile(Box::leak(base.to_string().into_boxed_str())) else { continue };
+            let vars: Vec<String> = fb.var_names().to_vec(); let nv = vars.len();
+            let tbase = fb.eval(&symvals(nv)).unwrap();
+            let te = FE::parse_wo_compile(Box::leak(e.to_string().into_boxed_str())).unwrap().eval(&[]).unwrap();
+            let want = tbin(op_idx(&tb, "^"), tbase.clone(), te.clone());
+            let pb = if (bi + ei) % 2 == 0 { Prog::Deep(base.to_string()) } else { Prog::Flat(base.to_string()) };
+            let pe = if ei % 2 == 0 { Prog::Deep(e.to_string()) } else { Prog::Flat(e.to_string()) };
+            for route in 0..2 {
+                let prog = if route == 0 { Prog::Arith(4, Box::new(pb.clone()), Box::new(pe.clone())) } else { Prog::HelperBin("^".into(), Box::new(pb.clone()), Box::new(pe.clone())) };
+                let (tb2, vars2, want2) = (tb.clone(), vars.clone(), want.clone());
+                cs.add(&tb, prog, vec![Query::Vars, Query::Eval(nv)], format!("({base}) ^ {e} ({})", if route == 0 { "pow method" } else { "^ overload" }), "power-of-a-power", 3, move |obs| {
+                    match (&obs[0], &obs[1]) {
+                        (Obs::S(v), Obs::T(got)) => {
+                            if *v != vars2 { return (Some(false), format!("variables {v:?}, expected {vars2:?}")) }
+                            let mut pts = points(vars2.len()); for p in points(vars2.len()) { pts.push(p.iter().map(|c| -c * 1.7).collect()); pts.push(p.iter().enumerate().map(|(k, c)| if k % 2 == 0 { -c } else { *c }).collect()); }
+                            for pt in pts {
+                                if !all_finite(&want2, &tb2, &pt) { continue }
+                                let (w, g) = (interp(&want2, &tb2, &pt), interp(got, &tb2, &pt));
+                                if !(g == w || (g - w).abs() <= 1e-9 * (1.0 + w.abs())) { return (Some(false), format!("value {g} vs unsimplified {w} at {pt:?}")) }
+                            }
+                            (Some(true), String::new())
+                        }
+                        _ => (Some(false), format!("{} / {}", pretty_obs(&obs[0]), pretty_obs(&obs[1]))),
+                    }
+                });
+            }
+        }
     }
     // a neutral element that a shortcut returned (a plain number that still carries variable names), a unary operator
     // on top of it (by name or through the named helper), and the result as an operand of every overloaded operator on
@@ -1751,6 +1833,29 @@ pub fn c06(a: &Args) -> CaseSet {
             if let Err(call) = follow_up_val(&t) {
                 panics += 1;
                 if panics <= 40 { cs.add(&tb, Prog::Flat(t.clone()), vec![Query::Vars], format!("[Val] {t:?}: {call} panicked"), "value-typed-operands", 2, move |_| (Some(false), format!("{call} panicked"))); }
+            }
+        }
+    }
+    // long texts of multi-byte characters in every alignment: error values quote the text (or the rest of it), so
+    // whatever is done to a long message is done at every byte offset of a 2-, 3- and 4-byte character
+    {
+        let mut texts: Vec<String> = vec![];
+        for ch in ["\u{3c0}", "\u{20ac}", "\u{1d6d1}", "\u{e9}"] { for shift in 0..4usize { for reps in [30usize, 70, 128, 129, 200, 260, 520, 1100] {
+            if !a.thorough && (shift + reps) % 3 == 1 { continue }
+            let body = ch.repeat(reps);
+            texts.push(format!("{}{body}", "#".repeat(shift)));                 // a character no token starts with, then the rest
+            texts.push(format!("{}+{body}", "x".repeat(shift + 1)));            // valid (Greek names) or unknown characters behind an operator
+            texts.push(format!("{}({body}", "1+".repeat(shift)));               // unbalanced parenthesis in front of a long name
+            texts.push(format!("{{{body}}} {}{{{body}", "y ".repeat(shift)));   // adjacent operands with long braced names
+        } } }
+        for t in texts {
+            count += 2;
+            for (kind, res) in [("f64", follow_up_f64(&t)), ("Val", follow_up_val(&t))] {
+                if let Err(call) = res {
+                    panics += 1;
+                    let short: String = t.chars().take(12).collect();
+                    if panics <= 60 { cs.add(&tb, Prog::Flat(t.clone()), vec![Query::Vars], format!("[{kind}] {short:?}.. ({} bytes, {} chars): {call} panicked", t.len(), t.chars().count()), "long-multibyte-texts", 2, move |_| (Some(false), format!("{call} panicked"))); }
+                }
             }
         }
     }
